@@ -103,7 +103,7 @@ def nontrivial(line, tags):
 
 
 def min_classes(tier):
-    return {"unknown-type": 1000, "gv-split": 100, "abort": 80, "str": 250, "gv-tail-spill": 200, "null-id-unknown-role": 24, "reply-then-empty-call": 60}
+    return {"unknown-type": 1000, "gv-split": 100, "abort": 80, "str": 250, "gv-tail-spill": 200, "null-id-unknown-role": 24, "reply-then-empty-call": 60, "gv-tail": 40}
 
 
 def expected_req_output(wire, maxc):
@@ -173,8 +173,37 @@ def reply_then_empty_call_case(rng):
     return case("req_run", [rng.choice([64, 256])], [rng.choice([1, 77])], flat(recs), sched), ["req", "reply-then-empty-call"]
 
 
+def gv_tail_case(rng):
+    """a GetValues record in the stream phase whose body ends in an INCOMPLETE pair, with the bytes that follow the body - its padding,
+    or the next record - chosen so that they would complete the pair into a well-known variable name (or leak the next record's query
+    into this reply) if the decoder did not stop at the end of the body; delivered in one read and in pieces"""
+    rid, maxc = 1, rng.choice([1, 999])
+    names = [b"FCGI_MAX_CONNS", b"FCGI_MAX_REQS", b"FCGI_MPXS_CONNS"]
+    first, hidden = rng.sample(names, 2)
+    cutn = rng.randrange(0, len(hidden))
+    if rng.random() < 0.5:
+        # the padding completes the truncated name
+        body = nv(list(first), []) + [len(hidden), 0] + list(hidden[:cutn])
+        padding = list(hidden[cutn:]) + [0] * rng.choice([0, 3])
+        if len(padding) > 255:
+            padding = padding[:255]
+        gv = header(GETVALUES, 0, len(body), len(padding)) + body + padding
+        nxt = []
+    else:
+        # a dangling length header swallows the next record's header as a name; that record's own query follows
+        body = nv(list(first), []) + [8, 0]
+        gv = header(GETVALUES, 0, len(body), 0) + body
+        nxt = record(GETVALUES, 0, nv(list(hidden), []), rng.choice([0, 5]))
+    s1 = record(STDIN, rid, list(b"abc"), 1) + gv + nxt + record(STDIN, rid, list(b"de"), 0) + record(STDIN, rid, [], 0)
+    w = flat(minimal_preamble(rid, 1)) + s1
+    ops = rng.choice([[[0, 10 ** 6]], [[1, 10 ** 6, 1000]], [[0, rng.randrange(1, 40)] for _ in range(12)] + [[0, 10 ** 6]]]) + [[4, 10 ** 6], [0, 0]]
+    return "str_run " + " ".join(fmt_arg(x) for x in [[rng.choice([256, 8192])], [maxc], w] + ops), ["str", "gv-tail"]
+
+
 def gen_cases(rng, tier):
     yield from _gen_cases_c04(rng, tier)
+    for _ in range(40 if tier == "quick" else 2000):
+        yield gv_tail_case(rng)
     for _ in range(60 if tier == "quick" else 3000):
         yield reply_then_empty_call_case(rng)
     for (P, pad) in ((65535, 255), (65281, 255), (65400, 200)):
